@@ -826,15 +826,21 @@ def enum_slice_loop(fn_node, loop):
 
 
 # ------------------------------------------------------------------ specialisation (constant folding under an assumption)
-def specialise(fn_node, subst: Dict[str, object]):
-    """Copy of the function with every expression whose text is a key of `subst` replaced by that constant, constants folded
-    (comparisons, membership in literal tuples, not / and / or, conditional expressions), single-assignment locals that fold to a
-    constant propagated, and `if` statements with a constant test replaced by the branch taken.  A scan written once and
-    parametrised by the strand (`for .. in (xs if forward else reversed(xs))`, `if (a > b) if forward else (a < b)`) becomes,
-    per strand, the plain scan the rules read.  Nothing is executed: only literals of the source are combined."""
+def specialise(fn_node, subst, tables: Dict[str, ast.AST] = None):
+    """Copy of the function with every expression whose text is a key of `subst` (or for which the callable `subst` returns a
+    non-None value) replaced by that constant, constants folded (comparisons, membership in literal tuples, not / and / or,
+    conditional expressions), single-assignment locals that fold to a constant - or to a lambda / plain name / dotted name -
+    propagated, look-ups of a constant key in a module-level table (`tables`: name -> ast.Dict) replaced by the entry, calls of a
+    lambda with plain arguments beta-reduced, literal tuple assignments split, and `if` statements with a constant test replaced by
+    the branch taken.  A scan written once and parametrised by the strand (`for .. in (xs if forward else reversed(xs))`,
+    `if (a > b) if forward else (a < b)`, a table {1: (iter, operator.gt), -1: (reversed, operator.lt)}) becomes, per strand, the
+    plain scan the rules read.  Nothing is executed: only literals of the source are combined."""
     import copy as _copy
     fn = _copy.deepcopy(fn_node)
+    tables = tables or {}
     consts: Dict[str, object] = {}
+    simple: Dict[str, ast.AST] = {}
+    lookup = subst if callable(subst) else (lambda t: subst.get(t, _MISSING))
 
     def stores(name):
         return [n for n in ast.walk(fn) if isinstance(n, ast.Name) and n.id == name and isinstance(n.ctx, (ast.Store, ast.Del))]
@@ -843,25 +849,44 @@ def specialise(fn_node, subst: Dict[str, object]):
         return (True, n.value) if isinstance(n, ast.Constant) else ((True, tuple(cval(e)[1] for e in n.elts))
                                                                    if isinstance(n, (ast.Tuple, ast.List, ast.Set)) and all(cval(e)[0] for e in n.elts) else (False, None))
 
-    class F(ast.NodeTransformer):
-        def generic_visit(self, node):
-            node = super().generic_visit(node)
-            return node
+    def is_table(x):
+        return (isinstance(x, ast.Name) and x.id in tables) or (isinstance(x, ast.Dict) and x.keys and all(k is not None for k in x.keys))
 
+    def table_entry(tbl, key_node):
+        d = tbl if isinstance(tbl, ast.Dict) else tables.get(tbl.id if isinstance(tbl, ast.Name) else tbl)
+        if not isinstance(d, ast.Dict) or not isinstance(key_node, ast.Constant):
+            return _MISSING
+        for k, v in zip(d.keys, d.values):
+            if isinstance(k, ast.Constant) and k.value == key_node.value and type(k.value) is type(key_node.value):
+                return _copy.deepcopy(v)
+            if isinstance(k, ast.UnaryOp) and isinstance(k.op, ast.USub) and isinstance(k.operand, ast.Constant) and -k.operand.value == key_node.value:
+                return _copy.deepcopy(v)
+        if all(isinstance(k, ast.Constant) or (isinstance(k, ast.UnaryOp) and isinstance(k.operand, ast.Constant)) for k in d.keys):
+            return None          # key absent from a table of constant keys
+        return _MISSING
+
+    class F(ast.NodeTransformer):
         def visit(self, node):
             if isinstance(node, ast.expr) and not isinstance(getattr(node, 'ctx', None), (ast.Store, ast.Del)):
                 try:
                     t = ast.unparse(node)
                 except Exception:
                     t = None
-                if t in subst:
-                    return ast.copy_location(ast.Constant(value=subst[t]), node)
+                if t is not None:
+                    v = lookup(t)
+                    if v is not _MISSING and v is not None:
+                        return ast.copy_location(ast.Constant(value=v), node)
             return super().visit(node)
 
         def visit_Name(self, n):
             if isinstance(n.ctx, ast.Load) and n.id in consts:
                 return ast.copy_location(ast.Constant(value=consts[n.id]), n)
+            if isinstance(n.ctx, ast.Load) and n.id in simple:
+                return _copy.deepcopy(simple[n.id])
             return n
+
+        def visit_Lambda(self, n):
+            return n          # the body of a lambda is folded when (and if) it is applied
 
         def visit_UnaryOp(self, n):
             self.generic_visit(n)
@@ -871,10 +896,54 @@ def specialise(fn_node, subst: Dict[str, object]):
                 return ast.copy_location(ast.Constant(value=-n.operand.value), n)
             return n
 
+        def visit_Subscript(self, n):
+            self.generic_visit(n)
+            if isinstance(n.ctx, ast.Load) and is_table(n.value):
+                e = table_entry(n.value, n.slice)
+                if e is not _MISSING and e is not None:
+                    return e
+            if isinstance(n.ctx, ast.Load) and isinstance(n.value, ast.Tuple) and isinstance(n.slice, ast.Constant) and isinstance(n.slice.value, int) \
+                    and -len(n.value.elts) <= n.slice.value < len(n.value.elts):
+                return n.value.elts[n.slice.value]
+            return n
+
+        def visit_Call(self, n):
+            self.generic_visit(n)
+            f = n.func
+            # TABLE.get(key[, default])
+            if isinstance(f, ast.Attribute) and f.attr == 'get' and is_table(f.value) and 1 <= len(n.args) <= 2 and not n.keywords:
+                e = table_entry(f.value, n.args[0])
+                if e is not _MISSING:
+                    return e if e is not None else (n.args[1] if len(n.args) == 2 else ast.copy_location(ast.Constant(value=None), n))
+            # (lambda a, b: E)(x, y) with plain arguments
+            if isinstance(f, ast.Lambda) and not n.keywords and not f.args.kwonlyargs and f.args.vararg is None and f.args.kwarg is None \
+                    and len(f.args.args) == len(n.args) and all(isinstance(a, (ast.Name, ast.Attribute, ast.Constant)) for a in n.args):
+                m = {p.arg: a for p, a in zip(f.args.args, n.args)}
+
+                class S(ast.NodeTransformer):
+                    def visit_Name(s_, x):
+                        return _copy.deepcopy(m[x.id]) if isinstance(x.ctx, ast.Load) and x.id in m else x
+                return F().visit(S().visit(_copy.deepcopy(f.body)))
+            # enumerate(iter(xs)) iterates like enumerate(xs)
+            if isinstance(f, ast.Name) and f.id == 'enumerate' and n.args and isinstance(n.args[0], ast.Call) and isinstance(n.args[0].func, ast.Name) \
+                    and n.args[0].func.id == 'iter' and len(n.args[0].args) == 1 and not n.args[0].keywords:
+                n.args[0] = n.args[0].args[0]
+            return n
+
         def visit_Compare(self, n):
             self.generic_visit(n)
             if len(n.ops) == 1:
-                (ka, a), (kb, b) = cval(n.left), cval(n.comparators[0])
+                l_, r_ = n.left, n.comparators[0]
+                # a lambda / function object is not None
+                for x, y in ((l_, r_), (r_, l_)):
+                    if isinstance(x, ast.Lambda) and isinstance(y, ast.Constant) and y.value is None and isinstance(n.ops[0], (ast.Is, ast.IsNot, ast.Eq, ast.NotEq)):
+                        return ast.copy_location(ast.Constant(value=isinstance(n.ops[0], (ast.IsNot, ast.NotEq))), n)
+                # constant key in / not in TABLE
+                if isinstance(n.ops[0], (ast.In, ast.NotIn)) and is_table(r_) and isinstance(l_, ast.Constant):
+                    e = table_entry(r_, l_)
+                    if e is not _MISSING:
+                        return ast.copy_location(ast.Constant(value=(e is not None) == isinstance(n.ops[0], ast.In)), n)
+                (ka, a), (kb, b) = cval(l_), cval(r_)
                 if ka and kb:
                     op = n.ops[0]
                     try:
@@ -925,10 +994,21 @@ def specialise(fn_node, subst: Dict[str, object]):
                 h.body = fold_block(h.body)
             if isinstance(s, ast.If) and isinstance(s.test, ast.Constant):
                 out.extend(s.body if s.test.value else s.orelse)
+                if out and isinstance(out[-1], (ast.Raise, ast.Return, ast.Continue, ast.Break)):
+                    break          # the rest of the block is dead
                 continue
-            if isinstance(s, ast.Assign) and len(s.targets) == 1 and isinstance(s.targets[0], ast.Name) and isinstance(s.value, ast.Constant) \
-                    and isinstance(s.value.value, (bool, int, str, type(None))) and len(stores(s.targets[0].id)) == 1:
-                consts[s.targets[0].id] = s.value.value
+            # a, b = (x, y)  ->  a = x; b = y   (names on the left, no name of the left read on the right)
+            if isinstance(s, ast.Assign) and len(s.targets) == 1 and isinstance(s.targets[0], ast.Tuple) and isinstance(s.value, ast.Tuple) \
+                    and len(s.targets[0].elts) == len(s.value.elts) and all(isinstance(t, ast.Name) for t in s.targets[0].elts) \
+                    and not ({t.id for t in s.targets[0].elts} & {x.id for x in ast.walk(s.value) if isinstance(x, ast.Name)}):
+                parts = [ast.copy_location(ast.Assign(targets=[t], value=v), s) for t, v in zip(s.targets[0].elts, s.value.elts)]
+                out.extend(fold_block(parts))
+                continue
+            if isinstance(s, ast.Assign) and len(s.targets) == 1 and isinstance(s.targets[0], ast.Name) and len(stores(s.targets[0].id)) == 1:
+                if isinstance(s.value, ast.Constant) and isinstance(s.value.value, (bool, int, str, type(None))):
+                    consts[s.targets[0].id] = s.value.value
+                elif isinstance(s.value, ast.Lambda) or (isinstance(s.value, (ast.Name, ast.Attribute)) and ast.unparse(s.value) in _SIMPLE_CALLABLES):
+                    simple[s.targets[0].id] = s.value
             if isinstance(s, (ast.For, ast.While)) and not s.body:
                 s.body = [ast.Pass()]
             if isinstance(s, ast.If) and not s.body:
@@ -938,6 +1018,15 @@ def specialise(fn_node, subst: Dict[str, object]):
     fn.body = fold_block(fn.body)
     ast.fix_missing_locations(fn)
     return fn
+
+
+_MISSING = object()
+_SIMPLE_CALLABLES = {'iter', 'reversed', 'sorted', 'list', 'tuple', 'operator.gt', 'operator.lt', 'operator.ge', 'operator.le', 'operator.eq', 'operator.ne'}
+
+
+def module_tables(module) -> Dict[str, ast.AST]:
+    """module-level constants that are dictionaries with constant keys (dispatch / parameter tables)"""
+    return {k: v for k, v in module.constants.items() if isinstance(v, ast.Dict) and v.keys and all(k_ is not None for k_ in v.keys)}
 
 
 def format_call_to_fstring(call):
